@@ -33,6 +33,10 @@ CHECKS = {
    technique=TECH + "crash/restart through a fault-injecting serde seam: for each seeded (SUT, configuration, stream) the crash point is enumerated (snapshot after j ticks for every j in 0..=2n+3 through tree / byte codec / JSON), the restored replica must continue bit-identically; serializer failure injected at every call index; storage faults (truncate, bit flip, window index/buffer damage, dropped field, NaN) on snapshots must be rejected or yield no panic",
    text="The crash-point dimension is enumerated completely for every drawn (SUT, parameters); SUT/parameters/streams are seeded. Covers every method with serde, MAInstance and all 36 indicators, configs and small value types.",
    note="Trusted: simfmt serializer/deserializer and byte codec written for this task (self-checked round trip), serde_json as a second carrier."),
+ "C10": dict(level="exploration", design="§4 C10",
+   technique=TECH + "configuration swarm stratified over every PeriodType value for every constructor / MA kind / indicator field (incl. float specials, every Source), then every accepted instance consumes a 600+ tick fault feed under catch_unwind; seeded garbage through MA::from_str / Source::from_str / set (partial fit: constructor totality is a stateless clause, decided by stratified seeded sampling of the configuration space)",
+   text="Complete over the 256 length values per single-length constructor and per MA kind (measured in evidence), boundary grid + seeded pairs (quick) or all 65 536 pairs (thorough) for two-parameter methods, one-field-at-a-time boundary sweep plus seeded multi-field mutations for the 36 indicator configurations. The 'never panics on a valid stream' clause is sampled (600-tick fault feeds).",
+   note="Strict build profile (debug assertions + overflow checks, as in the dev profile of the baseline). Documented minima from the doc comments. Known findings: the PeriodType::MAX family and NaN into SMM (known_findings.json)."),
 }
 NA = {
  "C16": "Action algebra is a total, stateless algebra over a finite domain: no history, state, fault, replica or schedule for a simulator to drive; the fitting technique (exhaustive enumeration) is model checking, which this task excludes (DESIGN.md §5).",
